@@ -47,7 +47,15 @@ fn run_scenario(out: &mut Out, scn: &Value, tag: usize) {
             // a two-point line string whose centroid (midpoint) is the lattice point
             let (x, y) = (c["x"].as_i64().unwrap(), c["y"].as_i64().unwrap());
             let (dx, dy) = (c["hx"].as_i64().unwrap_or(3), c["hy"].as_i64().unwrap_or(2));
-            gtxt.push_str(&format!("LINESTRING ({:.6} {:.6}, {:.6} {:.6})\n", (x - dx) as f64 * UNIT, (y - dy) as f64 * UNIT, (x + dx) as f64 * UNIT, (y + dy) as f64 * UNIT));
+            if i % 2 == 1 {
+                // a bent (L-shaped) geometry of two equally long legs whose length-weighted centroid is the lattice point,
+                // while the middle of its bounding box is not
+                let d = dx.max(1);
+                gtxt.push_str(&format!("LINESTRING ({:.6} {:.6}, {:.6} {:.6}, {:.6} {:.6})\n", (x - 3 * d) as f64 * UNIT, (y + d) as f64 * UNIT,
+                                       (x + d) as f64 * UNIT, (y + d) as f64 * UNIT, (x + d) as f64 * UNIT, (y - 3 * d) as f64 * UNIT));
+            } else {
+                gtxt.push_str(&format!("LINESTRING ({:.6} {:.6}, {:.6} {:.6})\n", (x - dx) as f64 * UNIT, (y - dy) as f64 * UNIT, (x + dx) as f64 * UNIT, (y + dy) as f64 * UNIT));
+            }
             ctxt.push_str(&format!("{}\n", c["cls"]));
             for (k, r) in c["restr"].as_array().unwrap().iter().enumerate() {
                 rrows.push((i, k, format!("{},{},{},{}\n", i, r["kind"].as_str().unwrap(), r["val"], r["unit"].as_str().unwrap())));
